@@ -23,6 +23,7 @@ META = {
                     "respective plate frame, using the model's (spun) plate-fixed coordinates",
                     "a RecursionError or any other exception counts against I6; wall-clock is never a verdict"],
 }
+REQUIRED_REACH = ['kinematics/sp_model.py:SP.IK', 'kinematics/sp_model.py:SP.FK', 'kinematics/sp_model.py:SP.validate', 'kinematics/sp_model.py:SP.move', 'kinematics/sp_model.py:SP.spinCustom', 'kinematics/sp_model.py:SP.inverseJacobian', 'kinematics/sp_model.py:SP.carryMassCalc']
 REQUIRED_CLAUSES = ["I1.joints", "I2.lengths", "I3.relative", "I4.valid_means_valid", "I5.pure_queries", "I6.returns"]
 
 
